@@ -130,7 +130,15 @@ def main(tier_):
             pa = [a for a in acts if a.get("prio")]
             pairs = [c for c in race.make_sweep(tname, nodes, call, feat, n_rel, pa, pairs=True, rnd=rnd, max_pairs=600) if len(c["meta"]["ks"]) == 2]
             all_cases += pairs
-    stats["sweep_space"] = len(all_cases)
+    # the mirror tree (always run in full: one action, every boundary)
+    mcalls = [c for path in race.MIRROR_PATHS for c in race.lookup_calls(path)]
+    mirror_cases = []
+    for bname, feat in (("emulated", {"openat2": False}), ("kernel", {"openat2": True})):
+        counts, _, _ = race.baseline_counts(race.MIRROR_TREE, mcalls, feat, jobs=8)
+        for call, n_rel in zip(mcalls, counts):
+            mirror_cases += race.make_sweep("mirror", race.MIRROR_TREE, call, feat, n_rel, race.MIRROR_ACTS, pairs=False)
+    stats["mirror_cases"] = len(mirror_cases)
+    stats["sweep_space"] = len(all_cases) + len(mirror_cases)
     if quick:
         # every placement of the priority actions (moving a directory of the walk out of the root,
         # exchanging it with a staged directory / escaping link); a seeded sample of the rest
@@ -141,6 +149,7 @@ def main(tier_):
         rnd.shuffle(prio)
         all_cases = prio[:3000] + rest[:400]
         stats["prio_space"] = len(prio)
+    all_cases += mirror_cases
     # keep shards homogeneous in feature set
     all_cases.sort(key=lambda c: json.dumps(c["feat"]))
     results = run_pv(all_cases, jobs=12, tag="C02")
